@@ -722,6 +722,49 @@ def permuted(fn):
     return g
 
 
+def gen_scales(rng, big):
+    """(audit round 2, F1) the scale of the input.  `widescale`: the families under an overall factor
+    10^k, 7 <= |k| <= 140, and O(1) matrices with one entry of size 1e±(20..140): inside the range stated in
+    props/C06.json `assumptions`, judged like every other decomposition.  `extreme`: factors 10^±(150..307)
+    and single entries of that size: products of two entries overflow / underflow in the kernels; the
+    library hangs, returns NaN or a wrong spectrum there (known findings C06-extreme-scale-*); few cases,
+    each may cost the watchdog's timeout.  Only `mat`, `eig` (no trace / getD after a NaN or a hang)."""
+    cases = []
+    base = [fam_dense, fam_symmetric, sym_tridiag, fam_triangular, fam_companion, fam_rotation, fam_hessenberg]
+    nw = 300 if big else 36
+    for i in range(nw):
+        n = pick_n(rng)
+        a = rng.choice(base)(rng, n)
+        if i % 3 == 2 and n > 1:
+            r, c = rng.randrange(n), rng.randrange(n)
+            v = 10.0 ** (rng.choice([-1, 1]) * rng.randint(20, 140)) * rng.uniform(1, 2)
+            a[r][c] = v
+            if all(a[x][y] == a[y][x] for x in range(n) for y in range(n) if (x, y) not in ((r, c), (c, r))) and rng.random() < 0.5:
+                a[c][r] = v
+        else:
+            sc = 10.0 ** (rng.choice([-1, 1]) * rng.randint(7, 140))
+            a = [[x * sc for x in row] for row in a]
+        cases.append(["case widescale-%d-%d %s" % (n, i, STORAGE[i % 3]), mat_line(a), "eig", "trace", "getD"])
+    ne = 30 if big else 12
+    for i in range(ne):
+        n = rng.choice([2, 3, 3, 4, 5, 6])
+        a = rng.choice([fam_dense, fam_symmetric, sym_tridiag])(rng, n)
+        kind = i % 4
+        if kind == 0:
+            sc = 10.0 ** rng.randint(153, 307)
+            a = [[x * sc for x in row] for row in a]
+        elif kind == 1:
+            sc = 10.0 ** -rng.randint(160, 300)
+            a = [[x * sc for x in row] for row in a]
+        elif kind == 2:
+            a[rng.randrange(n)][rng.randrange(n)] = 10.0 ** rng.randint(155, 300)
+        else:
+            sc = 10.0 ** rng.choice([155, 200, 307])
+            a = [[x * sc for x in row] for row in sym_tridiag(rng, n)]
+        cases.append(["case extreme-%d-%d %s" % (n, i, STORAGE[i % 3]), mat_line(a), "eig"])
+    return cases
+
+
 def rescaled(fn):
     """the same family under an overall scaling 10^k, k in -6..6 (half of the time)"""
     def g(rng, n):
@@ -863,6 +906,7 @@ def generate(seed, tier):
         for st in STORAGE:
             cases.append(["case dense-%d-all %s" % (n, st), mat_line(fam_dense(rng, n)), "eig", "trace", "getD"])
             cases.append(["case symmetric-%d-all %s" % (n, st), mat_line(fam_symmetric(rng, n)), "eig", "trace", "getD"])
+    cases += gen_scales(rng, big)
     # 3. pow / exp on diagonalisable matrices with real spectrum; dimension check on non-square input
     ng = 2000 if big else 200
     for i in range(ng):
@@ -1034,7 +1078,6 @@ BRANCHES = {
 }
 # branches of the anchored code without a counter: dead code, stated here so that the table is complete
 DEAD = [
-    ("tql2", "while (m < n_) leaves by its condition", "e[n-1] == 0.0 always satisfies the break test first"),
     ("orthes", "n_ == 0", "n >= 1 in the quantifier"),
     ("hqr2", "(i < low) || (i > high) (twice: roots isolated by balanc, vectors of isolated roots)", "low = 0, high = n-1: the port has no balancing"),
     ("hqr2", "l < n after 'No convergence yet'", "l <= n-2 there"),
@@ -1047,6 +1090,7 @@ DEAD = [
 # executed by every non-trivial decomposition; listed so that "every branch outcome" is read as "every outcome
 # of the 52 instrumented sites"
 UNCOUNTED = [
+    ("tql2", "while (m + 1 < n_) left by its condition (repaired bound, fix c934db9)", "whenever no negligible e[m] lies before the last row: every irreducible tridiagonal form"),
     ("tql2", "inner test |e[m]| <= eps*tst1 of the search for a small sub-diagonal element", "its outcomes are those of counter 5 (m > l) and of the loop increment"),
     ("hqr2", "while (l > low) left by its condition (no small sub-diagonal element down to row 0)", "true for every sweep on an unreduced window starting at row 0"),
     ("hqr2", "if (i > m + 2) inside the clearing of H(i,i-2), H(i,i-3) before a double QR step", "false for i = m+2, true for the later i of every window of size >= 4"),
